@@ -1225,9 +1225,11 @@ def gen_cls(S, cls, positive=True, allow_nested=0, uo=None):
     node["args"] = args
     fixed = cls in FIXED_ARGS or cls == "Radiolytic"
     # construction style
-    if fixed and (S.pct(22) if nargs == nargs_of(node) else S.pct(6)):
-        # dict of named arguments, keys inserted in any order; with fewer keys than names (Eyring, EyringHS) the
-        # trailing arguments take their defaults
+    if fixed and nargs == nargs_of(node) and S.pct(22):
+        # dict of named arguments, keys inserted in any order.  A dict naming only the leading arguments of a class
+        # with defaults is NOT generated: the documentation only says a dict "is converted to a list using
+        # argument_names", it does not promise defaults for missing keys (on the pinned tree such a dict loses its
+        # values: EyringHS({'dH': .., 'dS': ..}).args == ('dH', 'dS', 1 M)) - outside the stated domain.
         node["style"] = "dict"
         if nargs > 1:
             node["dorder"] = list(d(st.permutations(list(range(nargs)))))
